@@ -60,6 +60,15 @@ CLAIMED = {
              'n=2, thorough 3..4): piece list compared with a measure/adjacency/location oracle for all T0,T1 incl. joints.',
         note='Arc.reversed/split/cropped are not covered yet (Angle domain). Path.cropped positions compared up to 2.5e-5 (np.isclose snapping); one recorded known finding (snapping window at joints / path ends). radialrange optimality is C13.',
         design='3/C09'),
+    'C10': dict(
+        text='Bezier segments (degree 1..3, symbolic control points): translated, rotated (given and default origin), scaled (uniform, '
+             'non-uniform, given/default origin) and transform(seg, M) with a symbolic affine matrix are executed and z3 shows '
+             'op(seg).point(t) = OP(point(t)) for all values.  Arc: translated/rotated/uniform scaled build the new Arc from the transformed '
+             'end points, same (scaled) radii, rotation(+degs), flags, default origin = centre; non-uniform scaled() raises.  Joints: '
+             'transform_segments_together on n<=3 (thorough 4) segments, every coincidence pattern incl. the closing joint: end/start terms '
+             'abstracted to uninterpreted arithmetic, z3 (QF_UF) shows previously coinciding joints stay identical for any arithmetic.',
+        note='Rotation angle as a unit pair (c,s). Arc geometry itself is C04 (here _parameterize is a stub with a free centre). The Arc branch of transform() is not covered yet (raises TypeError under numpy 2.5 in this environment; see DESIGN). UF-sat answers are confirmed on random doubles in the replay.',
+        design='3/C10'),
 }
 
 NOT_YET = 'check not built yet in this round (see DESIGN.md section 3 for the plan)'
